@@ -58,8 +58,8 @@ MANIFEST = dict(
          "virtual.c call; Fx.processFx against sampled real libxmp_process_fx calls (--wrap hook: corpus modules, synthetic modules, injected "
          "and delayed events) and Fx.readRow + ST2.6 step against the first tick of a row of a real module for every effect number x "
          "parameter x lane under random set-up rows, partner effects and 10 (quick) / 24 (thorough) configurations of player mode, quirks, "
-         "flow mode, flags and time factor, incl. the two time factors where the tempo minimum leaves the byte range and modules with FAR extras; a third of the synthetic modules carry a pattern-loop start beyond the end of the next pattern; 40% of the cases switch player mode / vblank timing between the frames (mostly from inside the last sequence of multi-sequence marker modules; module tables re-dumped, Seq.rescanFix tied, sequence clause evaluated at once); header speeds 255/256/0x120/0xffff/0 reach libxmp_load_epilogue through synthetic modules and generated XM files; the effect sweep also plays notes with 1/2/4 voices (a note that gets no voice must still run its effects); Fx.tempoSlideStep "
-         "against the following tick; constants, the min_bpm clamp and the writer-site list regenerated from the sources; plus a direct "
+         "flow mode, flags and time factor, incl. the two time factors where the tempo minimum leaves the byte range and modules with FAR extras; a third of the synthetic modules carry a pattern-loop start beyond the end of the next pattern; 40% of the cases switch player mode / vblank timing between the frames (mostly from inside the last sequence of multi-sequence marker modules; module tables re-dumped, Seq.rescanFix tied, sequence clause evaluated at once); a third of the cases shut the player down and start it again at another rate / format (mostly XMP_MAX_SRATE or 48 kHz 16-bit stereo, the tempo factor surviving); a quarter are 'marathons': short multi-order modules played on through many wraps with plain xmp_play_frame and no position-control call, in every flow mode and after xmp_set_player(MODE, each value); header speeds 255/256/0x120/0xffff/0 reach libxmp_load_epilogue through synthetic modules and generated XM files; the effect sweep also plays notes with 1/2/4 voices (a note that gets no voice must still run its effects); Fx.tempoSlideStep "
+         "against the following tick; constants, the min_bpm clamp, the three frame-size cap divisors (C16_cap_constants) and the writer-site list regenerated from the sources; plus a direct "
          "oracle on xmp_frame_info that yields replayable failing inputs.",
     note="Still abstract / monitored: (1) NO effect number remains abstract: all of 0x00..0xff are modelled, incl. FX_FAR_TEMPO 0x68 / "
          "FX_FAR_F_TEMPO 0x69 in modules with FAR extras (Fx.farTranslate = libxmp_far_translate_tempo with the fine-tempo clamping, both "
@@ -92,6 +92,7 @@ REQUIRED = [
     "Xmp.Seq.C16_next_order_terminates", "Xmp.Seq.C16_frame_returns", "Xmp.Seq.C16_inv_frame_total",
     "Xmp.Seq.C16_reachable_total", "Xmp.Seq.C16_reachable_info_total",
     "Xmp.Seq.C16_loop_jump_lands_in_pattern", "Xmp.Fx.C16_far_tempo_range",
+    "Xmp.Tick.C16_cap_constants", "Xmp.Seq.C16_next_order_keeps_loop_counter",
     "Xmp.Seq.C16_inv_mode_switch", "Xmp.Seq.C16_reachable_modes", "Xmp.Seq.C16_wf_of_loaded", "Xmp.Seq.C16_inv_start_loaded",
     "Xmp.Seq.C16_play_buffer", "Xmp.Seq.C16_reachable_api", "Xmp.Seq.C16_loop_monotone_api",
     "Xmp.Fx.C16_fx_env_ok", "Xmp.Fx.C16_fx_writer_sites", "Xmp.Fx.C16_fx_range", "Xmp.Fx.C16_fx_range_call", "Xmp.Fx.C16_fx_range_row",
@@ -219,10 +220,10 @@ def compare_case(ck, case, model_lines, stats, rp):
                 stats["tick_exact"] += 1
                 ok = True
             else:
-                # floating-point rounding bracket: the real tick size must lie between the model's
-                # results for time_factor*(1-2^-40) and time_factor*(1+2^-40)
-                lo, hi = int(mt[4]), int(mt[5])
-                ok = lo != hi and min(lo, hi) <= int(et[1]) <= max(lo, hi)
+                # floating-point rounding bracket: the real (tick size, prepared tick size, buffer size) must be what the model
+                # gives for time_factor*(1-2^-40) or for time_factor*(1+2^-40), as a whole triple
+                lo3, hi3 = [mt[4], mt[6], mt[7]], [mt[5], mt[8], mt[9]]
+                ok = lo3 != hi3 and et[1:4] in (lo3, hi3)
                 if ok:
                     stats["tick_rounding_bracket"] += 1
         elif kind == "tfac":
@@ -372,7 +373,7 @@ def run(ck):
                 stats["fxrow_state_changed"] += cc.get("fxchanged", 0)
                 ck.count(vlib.hash_str(c["begin"]), nontrivial=cc.get("fxchanged", 0) >= 1000)
                 continue
-            nontrivial = cc["frames"] >= 20 and cc["repos"] >= 1 and cc["ordchg"] >= 1
+            nontrivial = cc["frames"] >= 20 and cc["ordchg"] >= 1 and (cc["repos"] >= 1 or " mar=1 " in c["begin"])
             ck.count(vlib.hash_str(c["begin"]), nontrivial=nontrivial)
             ck.sample({"case": c["begin"][:200], "frames_ok": cc["frames"], "repositions": cc["repos"],
                        "order_changes": cc["ordchg"], "control_calls": cc["ctl"], "wf": cc["wf"]}, limit=5)
@@ -396,7 +397,8 @@ def run(ck):
     ck.cov["rule"] = ("case = (module: corpus file or seeded synthetic module; rate, format, voices, tempo-factor mode, buffer mode; seeded history "
                       "of xmp_play_frame / xmp_play_buffer interleaved with xmp_set_position/next/prev/set_row/seek_time/stop/restart/buffer "
                       "reset and injected speed/tempo/flow events); distinct by hash of the case header; non-trivial = at least 20 successful "
-                      "frames, at least one reposition frame and at least one order change inside the case. fxall case = one configuration "
+                      "frames, at least one order change and at least one reposition frame (marathon cases: no position-control call by design) inside "
+                      "the case. fxall case = one configuration "
                       "(player mode, quirks, flow mode, flags, time factor) of the effect sweep; non-trivial = at least 1000 experiments in "
                       "which the row changed the flow record")
     ck.assumptions += [
